@@ -40,6 +40,9 @@ pub const R_NET: &[&str] = &[
     "$domain=example.com|tracker.co.uk",
     "bar$domain=~example.com",
     "/foo/bar$domain=example.com",
+    // a single-label initiator domain (its hash chain has one element)
+    "ads$domain=localhost",
+    "$domain=localhost",
     // "bad" tokens as the only tokens
     ".com/ads",
     "://www.",
@@ -100,7 +103,7 @@ pub const CUBE_PATTERNS: &[&str] = &[
 ];
 
 pub const CUBE_OPTIONS: &[&str] = &[
-    "", "script", "~script", "image,script", "document", "3p", "1p", "domain=example.com", "domain=~example.com", "domain=example.com|ads.net", "important", "tag=t1", "match-case",
+    "", "script", "~script", "image,script", "document", "3p", "1p", "domain=example.com", "domain=~example.com", "domain=example.com|ads.net", "domain=localhost", "important", "tag=t1", "match-case",
     "xhr,3p", "redirect=a", "csp=d1", "removeparam=utm", "websocket", "~websocket,~image",
     // two category-deciding options on one rule (the category dispatch must take the modifier)
     "csp=d1,important", "removeparam=utm,important", "redirect=a,important", "redirect-rule=b", "important,tag=t1", "csp=d2,tag=t1",
@@ -164,7 +167,7 @@ pub const SCHEMES: &[&str] = &["https", "http", "ws", "wss"];
 
 /// Initiators: same site, sub-domain of the same site, unrelated site, `domain=`-listed site,
 /// absent. `{H}` is replaced by the request host.
-pub const INITIATORS: &[&str] = &["https://{H}/", "https://w.{H}/", "https://unrelated.org/", "https://example.com/page", ""];
+pub const INITIATORS: &[&str] = &["https://{H}/", "https://w.{H}/", "https://unrelated.org/", "https://example.com/page", "", "http://localhost:8080/index.html"];
 
 pub const TYPES_QUICK: &[&str] = &["script", "image", "document", "subdocument", "xmlhttprequest", "stylesheet", "websocket", "other"];
 pub const TYPES_ALL: &[&str] = &[
